@@ -17,7 +17,7 @@ RULE = ("shadow execution: every top-level call of a public callable that has a 
         "3D with every mix of single and collection arguments, plus the repository's tests. Integer indexing / iteration of every collection "
         "class is checked for element class, values and attributes. Non-trivial = the collection call returned normally; distinct by "
         "(operation, operand digest)."
-        " The collection result must be a collection class of the single results' class with index sets shifted by the collection axes; a part of a collection (fewer integers than collection axes, slices, iteration over several axes) must be a collection of the same class with its attributes. `==` of two collections is one truth value: True only if every pair of elements compares equal, False only if some pair does not (for polygon collections a False is judged when one common re-ordering of the vertex cycle maps every element onto its partner). Explicit workloads: polygon collections written from another start vertex / in the other orientation / with the members re-ordered, 3D segment collections mixing skew pairs with pairs whose supporting lines cross inside, at the end of and beyond the end of either segment. Constructors handed collections (QuadricCollection.from_planes, QuadricCollection(normalize_matrix=True)) and the list-valued angles of polygon collections are compared position by position with the single constructors / polygons (angles modulo pi).")
+        " The collection result must be a collection class of the single results' class with index sets shifted by the collection axes; a part of a collection (fewer integers than collection axes, slices, iteration over several axes) must be a collection of the same class with its attributes. `==` of two collections is one truth value: True only if every pair of elements compares equal, False only if some pair does not (for polygon collections a False is judged when one common re-ordering of the vertex cycle maps every element onto its partner). Explicit workloads: polygon collections written from another start vertex / in the other orientation / with the members re-ordered, 3D segment collections mixing skew pairs with pairs whose supporting lines cross inside, at the end of and beyond the end of either segment. Constructors handed collections (QuadricCollection.from_planes, QuadricCollection(normalize_matrix=True)) and the list-valued angles of polygon collections are compared position by position with the single constructors / polygons (angles modulo pi); powers 0, 1, 2, -1 of transformation collections with one and two collection axes.")
 SHARDS = (8, 16)
 REQUIRED = ["shadow", "getitem.element", "iter.element"]
 ASSUMPTIONS = ["collection axes align from the right (documented in TensorDiagram.calculate); operand pairs whose shapes do not align are outside the domain"]
